@@ -68,6 +68,10 @@ CLAIMED["C06"] = dict(engine="E1", technique="symbolic execution of the real dem
     text="Memoryless schemes (BPSK, QPSK, PSK, QAM, PAM, OQPSK; orders <= 16 quick / 64 thorough-stretch): for every received point in [-4,4]^2 the hard decision is the label of a point within margin of the minimum distance; for every y and every noise variance in [1e-3,1e3] each LLR times the noise variance equals a fixed positive kappa times (min squared distance to a 1-labelled point - min squared distance to a 0-labelled point), which implies the sign/hard-decision agreement and the 1/noise_var scaling.",
     note="Floats of symbolic quantities are reals (margin 1e-4 d_min^2, tolerance 1e-3 kappa); kappa is read from one concrete evaluation, then proved for all inputs. DPSK / pi/4-QPSK on a continuous received point are outside the claim (atan2, alternating tables).",
     ref="DESIGN.md §4 C06, §6")
+CLAIMED["C10"] = dict(engine="E1", technique="symbolic execution of the real soft-input decoders on symbolic real LLR vectors (sign/min/abs become ite terms, tanh/atanh uninterpreted); z3 (LRA / NRA) decides ML optimality of Wagner against a second symbolic codeword, the min-sum check update against the rule written in the harness, clean decoding and rescaling invariance",
+    text="Wagner: for every tie-free real LLR vector of the stated layouts the returned codeword maximises the correlation over all 2^k single-parity-check codewords (one query per path, competitor symbolic). Min-sum: compute_cv_minsum equals sign product x minimum magnitude (scaled/offset) for all inputs on single-check codes, clean LLRs with symbolic magnitudes decode to the message and decoding is invariant to rescaling by 3. Soft Reed-Muller and sum-product BP: clean decoding (known finding / stretch).",
+    note="Ties and exact zeros excluded; floats as reals; exact posteriors on cycle-free graphs are outside the claim; SPC k <= 4 (6), LDPC matrices 3x6 and 3x7, iterations <= 2 (3).",
+    ref="DESIGN.md §4 C10, §6")
 NOT_YET = {}
 
 PENDING_REASON = "check not built yet in this round (planned: see DESIGN.md §8); not claimed until its check exists"
